@@ -1298,6 +1298,7 @@ func (g *G) Case() *core.Case {
 		g.ifaces = append(g.ifaces, g.genIface(cfg.SkipEnsure))
 	}
 	g.assignFiles()
+	g.avoidRetroRenames()
 
 	c := &core.Case{ModPath: g.modPath, Files: map[string]string{}, SrcDir: dir, SrcPath: g.src.Path, SrcName: name}
 	c.Files["go.mod"] = "module " + g.modPath + "\n\ngo 1.24\n"
